@@ -125,16 +125,20 @@ def showRes : SectC03.Res → String
   | .bytes b => "ok " ++ toHex b
   | .exc e => "exc " ++ e.name
 
+def showBel : Option Nat → String
+  | some n => toString n
+  | none => "-1"
+
 def showEv (e : SectC03.Ev) : String :=
   let k := match e.kind with | .read => "r" | .write => "w" | .select => "s"
-  s!"{k}:{e.real}:{e.bel}:{e.page % 256}:{toHex e.data}"
+  s!"{k}:{e.real}:{showBel e.bel}:{e.page % 256}:{toHex e.data}"
 
 def doSect (m : Bytes) (script : List Air) (ops : List SectC03.Op) : String :=
   let r := SectC03.run (SectC03.fresh m script) ops
   let w := r.1.1
   let tr := w.trace.reverse
   "; ".intercalate (r.2.map showRes) ++ " | " ++ (if tr.isEmpty then "-" else ",".intercalate (tr.map showEv))
-    ++ s!" | {w.tag.sector} {w.cur} {if w.tag.pend then 1 else 0} {if w.amb then 1 else 0} {r.1.2.fromTag.length}"
+    ++ s!" | {w.tag.sector} {showBel w.cur} {if w.tag.pend then 1 else 0} {if w.amb then 1 else 0} {r.1.2.fromTag.length}"
 end SectDrv
 
 def handle (line : String) : String :=
